@@ -98,12 +98,12 @@ func specAllowed(bestPing bool, cs []sconn, prev int) (allowed uint32, class str
 	return allowed, "best-ping"
 }
 
-const perConnStates = 30 // alive{T,F} x seqno{0..4} x rtt{1,2,3}
+const perConnStates = 30 // alive{T,F} x seqno{0..4} x rtt{0,1,2} ms (0 = no pong measured yet, the value of every fresh connection)
 
 func setState(c *sconn, s int) {
 	c.alive = s%2 == 0
 	c.seqno = uint32((s / 2) % 5)
-	c.rtt = time.Duration(s/10+1) * time.Millisecond
+	c.rtt = time.Duration(s/10) * time.Millisecond
 }
 
 type gridAgg struct {
@@ -274,6 +274,105 @@ func workloadA() {
 }
 
 // ---------------------------------------------------------------------------
+// Workload C: configuration order through the registration path
+// ---------------------------------------------------------------------------
+
+// workloadC registers connections through pool.VerifNewConnection (the
+// production registration: servers finish connecting in any order, the pool
+// keeps them in configuration = id order, the first one registered is the
+// choice before the first refresh) in every order, and compares the choice
+// after a refresh with the specification function, whose "configuration
+// order" is the order of the ids.
+func workloadC() {
+	names := map[bool]string{false: "first-working", true: "best-ping"}
+	var calls int64
+	for k := 1; k <= 4; k++ {
+		var perms [][]int
+		var gen func(cur []int, used int)
+		gen = func(cur []int, used int) {
+			if len(cur) == k {
+				perms = append(perms, append([]int(nil), cur...))
+				return
+			}
+			for i := 0; i < k; i++ {
+				if used&(1<<uint(i)) == 0 {
+					gen(append(cur, i), used|1<<uint(i))
+				}
+			}
+		}
+		gen(nil, 0)
+		heads := 1
+		for i := 0; i < k; i++ {
+			heads *= 3
+		}
+		for _, order := range perms {
+			for _, bestPing := range []bool{false, true} {
+				for hs := 0; hs < heads; hs++ {
+					strategy := pool.Strategy(pool.FirstWorkingConnection)
+					if bestPing {
+						strategy = pool.BestPingStrategy
+					}
+					p := pool.VerifNewPool(strategy, nil)
+					conns := make([]*pool.VerifConnection, k)
+					cs := make([]sconn, k)
+					x := hs
+					for i := 0; i < k; i++ {
+						// rtt falls with the id, so that best-ping and first-working disagree
+						cs[i] = sconn{id: i, alive: true, seqno: uint32(3 + x%3), rtt: time.Duration(k-i) * time.Millisecond}
+						x /= 3
+					}
+					for _, id := range order {
+						conns[id] = p.VerifNewConnection(id, true, cs[id].rtt)
+					}
+					prev := -1
+					if b := p.VerifBest(); b != nil {
+						prev = b.ID()
+					}
+					if prev != order[0] {
+						R.Seen("observed", "the choice before the first refresh is not the first connection registered")
+					}
+					for i := 0; i < k; i++ { // at most 4 publications: the 10-slot update channel takes them without a Run loop
+						conns[i].SetMasterHead(ton.BlockIDExt{BlockID: ton.BlockID{Workchain: -1, Shard: 0x8000000000000000, Seqno: cs[i].seqno}})
+					}
+					for am := 0; am < 1<<uint(k); am++ {
+						for i := 0; i < k; i++ {
+							cs[i].alive = am&(1<<uint(i)) != 0
+							conns[i].SetAlive(cs[i].alive)
+						}
+						before := -1
+						if b := p.VerifBest(); b != nil {
+							before = b.ID()
+						}
+						allowed, class := specAllowed(bestPing, cs, before)
+						p.VerifUpdateBest()
+						got := -1
+						if b := p.VerifBest(); b != nil {
+							got = b.ID()
+						}
+						calls++
+						R.Eval(fmt.Sprintf("C/k%d/%s/%s/order%v/allowed%02x", k, names[bestPing], class, order, allowed))
+						if got < -1 || got >= k || allowed&(1<<uint(got+1)) == 0 {
+							conf := make([]map[string]any, k)
+							for i := range cs {
+								conf[i] = map[string]any{"id": i, "alive": cs[i].alive, "seqno": cs[i].seqno, "rtt_ms": int(cs[i].rtt / time.Millisecond)}
+							}
+							why := "wrong-connection"
+							if !bestPing && class == "first-working" {
+								why = "not-first-qualifying-in-configuration-order"
+							}
+							R.Violation("selection-mismatch@"+names[bestPing]+"/registered-out-of-order/"+why, map[string]any{
+								"strategy": names[bestPing], "registration_order": order, "connections_by_id": conf, "previous_choice": before,
+								"chosen": got, "allowed_mask_bit_id_plus_1": allowed})
+						}
+					}
+				}
+			}
+		}
+	}
+	R.Count("registration_order_updateBest_calls", calls)
+}
+
+// ---------------------------------------------------------------------------
 // parent: jobs for workload B, race logs, verdict
 // ---------------------------------------------------------------------------
 
@@ -426,8 +525,9 @@ func main() {
 		tier = os.Args[1]
 	}
 	R = mon.Start("C13", tier)
-	R.Rule = "A: every pool of 1..4 scripted connections x alive{T,F} x seqno{0..4} x rtt{1,2,3} x both strategies x every previous choice (incl. none) goes through the real updateBest and the choice is compared with a specification function written from the statement (all calls compared; distinct = classes (k, strategy, rule branch, allowed set, kept/moved)). " +
-		"B: real connections + real Run loop under random and directed schedules driven from 6 hook points; per scenario: porcupine (set->max per connection, switch, wait(n)=ok legal iff head of the best connection >= n, error results always legal), completeness (head >= n published on the connection that was best during the whole wait, >= 300 ms before the deadline => ok), deadline (return <= timeout + 2 s from the call), early-error, 30 s watchdog with goroutine dump, race detector; non-trivial = a scenario in which at least one hook point was reached; distinct = distinct global orders of (actor, hook point) events"
+	R.Rule = "A: every pool of 1..4 scripted connections x alive{T,F} x seqno{0..4} x rtt{0,1,2} ms x both strategies x every previous choice (incl. none) goes through the real updateBest and the choice is compared with a specification function written from the statement (all calls compared; distinct = classes (k, strategy, rule branch, allowed set, kept/moved)). " +
+		"C: every registration order of 1..4 connections (ids registered out of order, as servers finish connecting) x heads{3,4,5} x every liveness pattern x both strategies: choice after a refresh against the same specification function with configuration order = id order. " +
+		"B: real connections + real Run loop under random and directed schedules driven from 6 hook points; per scenario: porcupine (set->max per connection, switch, wait(n)=ok legal iff head of the best connection >= n, error results always legal), completeness (head >= n published on the connection that was best during the whole wait, >= 300 ms before the deadline, call made >= 100 ms before it => ok), deadline (return <= 2 s after the timeout or the cancellation, <= 500 ms when no directed hold was active), an error only once the timeout elapsed or the context was cancelled (which error is not judged), BestMasterchainClient's head (and client) from a connection that was the choice during the call, directed: cancellation long before the timeout, one late insufficient head, head published into a full update channel for a registered waiter, ticker-driven refresh under head traffic, 30 s watchdog with goroutine dump, race detector; non-trivial = a scenario in which at least one hook point was reached; distinct = distinct global orders of (actor, hook point) events"
 	R.Assume("liveness and round-trip time of a connection come from a live liteclient in production; here they are scripted (pool.VerifConnection wraps the real *connection: head, lock and publication are the production code)")
 	R.Assume("seqnos near 2^32 are not part of the grid (seqno+1 overflows there; no masterchain reaches that height)")
 	R.Assume("completeness is only decided for waits during which the best connection did not change")
@@ -438,6 +538,9 @@ func main() {
 	t := time.Now()
 	workloadA()
 	R.Extra("wall_grid_s", time.Since(t).Seconds())
+	if p := mon.Guard(workloadC); p != nil {
+		R.Violation("panic@"+p.Site+"/registration", map[string]any{"panic": p.Value, "stack": mon.Trunc(p.Stack, 1500)})
+	}
 	t = time.Now()
 	workloadB()
 	R.Extra("wall_schedules_s", time.Since(t).Seconds())
